@@ -64,6 +64,10 @@ type TxSpec struct {
 	Data   string `json:"data,omitempty"`  // distinguishes same-nonce competitors
 	DupOf  int    `json:"dupOf,omitempty"` // 1+index of the transaction whose hash this object shares (0 = none)
 	Signed bool   `json:"signed,omitempty"`
+	// Gate != 0: the shape GameExecutor.runWrite gives a transaction that arrived through the
+	// gateway: RequestId = message nonce (Rid), SubTransactions = [{Address: gate nonce}].
+	// AddTransaction / MarkExecuted then also record the gate nonce (refreshGateNonce).
+	Gate uint64 `json:"gate,omitempty"`
 }
 
 // Universe is a closed set of transactions over a few senders.
@@ -137,6 +141,9 @@ func newUniverse(name string, nsenders int, base []uint64, nonces [][]uint64, sp
 				ChainId: chain,
 			}
 			tx.RequestId = sp.Rid
+			if sp.Gate != 0 {
+				tx.SubTransactions = []types.UserData{{Address: sp.Gate}}
+			}
 			tx.Hash = tx.GenHash()
 			if sp.Signed {
 				sg := keys[sp.Sender].Sign(tx.Hash.Bytes())
@@ -482,6 +489,7 @@ type Dump struct {
 	ExecBlock   []string // block hash stored in each record (short)
 	Evicted     []int    // hash ids in the evicted cache, oldest first
 	BatchBytes  int      // unwritten bytes in the executed-records batch
+	GateNonce   uint64   // GetGateNonce(): the gate nonce persisted in the executed-records database
 }
 
 func (im *Impl) hid(h common.Hash) int {
@@ -533,12 +541,13 @@ func (im *Impl) Dump() Dump {
 		d.Evicted = append(d.Evicted, im.hid(k))
 	}
 	d.BatchBytes = im.Pool.VerifBatchSize()
+	d.GateNonce = im.Pool.GetGateNonce()
 	return d
 }
 
 // Key is the canonical string of a dump.
 func (d Dump) Key() string {
-	return fmt.Sprint("P", d.Pending, d.PendingHID, d.KeyMismatch, "A", d.Ages, "X", d.Executed, d.ExecObj, d.ExecBlock, "E", d.Evicted, "B", d.BatchBytes)
+	return fmt.Sprint("P", d.Pending, d.PendingHID, d.KeyMismatch, "A", d.Ages, "X", d.Executed, d.ExecObj, d.ExecBlock, "E", d.Evicted, "B", d.BatchBytes, "G", d.GateNonce)
 }
 
 // StateKey hashes implementation dump + model state into the BFS dedup key.
